@@ -92,23 +92,26 @@ def chunk_row(seq, start, end, mode, value=0.0, proto=None):
 
 
 def chunk_legal(length, start, end, mode):
-    if end <= start:
-        # nothing is padded; the library still needs something to replicate
-        return True
+    """A slice is in the domain iff the pads it asks for are legal for the mode.
+    Empty and inverted slices ask for pads (0, 0): legal for constant always,
+    for reflect/replicate only on a non-empty row (0 is not < 0; nothing to
+    replicate) -- exactly the documented preconditions of the padding modes."""
     left, right = slice_pads(length, start, end)
     return legal(length, left, right, mode)
 
 
-def compact_row(seq, mask, value):
+def compact_row(seq, mask, value, width=None, proto=None):
     """Masked compaction of one row: selected elements in order, then the
-    padding value; returns (row of the same length, count)."""
+    padding value up to `width` (default: the row's own length); returns
+    (row, count)."""
     seq, mask = list(seq), list(mask)
     assert len(seq) == len(mask)
     sel = [s for s, m in zip(seq, mask) if m]
-    out = list(sel)
-    for t in range(len(sel), len(seq)):
-        out.append(fill_like(seq[t], value))
-    return out, len(sel)
+    width = len(seq) if width is None else width
+    if seq:
+        proto = seq[0]
+    fill = fill_like(proto, value) if proto is not None else value
+    return sel + [fill] * max(width - len(sel), 0), len(sel)
 
 
 def shift_candidates(length, extra, cap_left, cap_right):
